@@ -69,7 +69,7 @@ contract(f"{OWN}.check_enough_min_chain_length_for_issuer", shapes={"self": OWNC
          ensures={"true_iff_every_group_has_chain_length_left": "result == chain_length_allows(self.certificate)"},
          canary={"always": "result", "never": "not result"}, **S)
 
-VSUBJ = cert(groups=[None, [1]], app_lens=(1,), issuer=T.oneof(T.none, cert(app_lens=(1,), groups=[["all"], [1]])))
+VSUBJ = cert(groups=[None, [1]], app_lens=(1,), sig=SIGVAL, issuer=T.oneof(T.none, cert(app_lens=(1,), groups=[["all"], [1]])))
 _ISSUED = "self.certificate['issuer'][0] == 'sha256AndDigest'"
 contract(f"{CERT}.verify", shapes={"self": VSUBJ, "backend": T.opaque("ecdsa_backend")}, may_raise=["Exception"], inline=[f"{CERT}.as_hashedid8"],
          ensures={
@@ -81,7 +81,7 @@ contract(f"{CERT}.verify", shapes={"self": VSUBJ, "backend": T.opaque("ecdsa_bac
              "self_signed_checked_under_its_own_key": "implies(result and self.certificate['issuer'][0] == 'self', sig_check()[2] == self.certificate['toBeSigned']['verifyKeyIndicator'][1])",
              "only_nist_p256_signatures_and_keys": "implies(result, self.certificate['signature'][0] == 'ecdsaNistP256Signature' and self.certificate['toBeSigned']['verifyKeyIndicator'][0] == 'verificationKey' and self.certificate['toBeSigned']['verifyKeyIndicator'][1][0] == 'ecdsaNistP256')",
              "honest_issued_certificate_accepted": f"implies({_ISSUED} and self.issuer is not None and self.certificate.get('type') == 'explicit' and self.certificate['issuer'][1] == self.issuer.as_hashedid8() and contained(self.certificate, self.issuer.certificate) and self.certificate['signature'][0] == 'ecdsaNistP256Signature' and self.certificate['toBeSigned']['verifyKeyIndicator'][0] == 'verificationKey' and self.certificate['toBeSigned']['verifyKeyIndicator'][1][0] == 'ecdsaNistP256' and n_sig_checks() == 1 and sig_check()[3], result)"},
-         cover=["result", "not result"], canary={"always": "result"}, **S)
+         cover=["result", "not result"], canary={"always": "result"}, **{**S, "props": ["C09", "C03"]})
 
 # ------------------------------------------------------------------------------------------- the certificate library
 LIBQ = f"{SS}.certificate_library:CertificateLibrary"
@@ -89,7 +89,7 @@ OC = lambda: T.opaque("cert")
 CM = lambda: T.keymap("certmap", T.bytes_n(8), OC())
 LIB = T.obj(LIBQ, own_certificates=CM(), known_authorization_tickets=CM(), known_authorization_authorities=CM(),
             known_root_certificates=CM(), ecdsa_backend=T.opaque("ecdsa_backend"))
-L = dict(mode="int", spec_module="spec_sec", engine_setup=models_sec.setup_library, props=["C09", "C03"], frame_check=False, requires=["store_wf(self)"])
+L = dict(mode="int", spec_module="spec_sec", engine_setup=models_sec.setup_library, props=["C09", "C03", "C05"], frame_check=False, requires=["store_wf(self)"])
 _AT, _AA, _ROOT = "self.known_authorization_tickets", "self.known_authorization_authorities", "self.known_root_certificates"
 
 contract(f"{LIBQ}.get_issuer_certificate", shapes={"self": LIB, "certificate": OC()}, returns=T.opt(OC()),
@@ -120,6 +120,7 @@ contract(f"{LIBQ}.verify_sequence_of_certificates",
          shapes={"self": LIB, "certificates": T.oneof(*[T.list(*[MSGCERT] * n) for n in range(5)]), "backend": T.opaque("ecdsa_backend")},
          returns=T.opt(OC()), modifies=[_AT, _AA], may_raise=["ValueError"],
          ensures={"a_returned_ticket_was_stored_or_has_a_verified_chain_to_a_stored_issuer": "implies(result is not None, (old(map_has(self.known_authorization_tickets, digest_of(result))) and result is old(map_get(self.known_authorization_tickets, digest_of(result)))) or chain_verified(self, result, backend))",
+                  "a_ticket_verified_from_the_message_is_remembered_for_later_digest_signed_messages": "implies(result is not None and len(certificates) <= 2 and names_trusted_issuer(self, result), map_has(self.known_authorization_tickets, digest_of(result)))",
                   "ticket_store_changes_only_by_admitting_verified_certificates": f"implies(not unchanged({_AT}), map_get({_AT}, old(map_key0({_AT}))).verify(backend) and names_trusted_issuer(self, map_get({_AT}, old(map_key0({_AT})))))",
                   "authority_store_changes_only_by_admitting_verified_certificates": f"implies(not unchanged({_AA}), map_get({_AA}, old(map_key0({_AA}))).verify(backend) and names_trusted_issuer(self, map_get({_AA}, old(map_key0({_AA})))))",
                   "nothing_is_replaced_or_removed": f"implies(old(map_has({_AT}, map_key0({_AT}))), unchanged({_AT})) and implies(old(map_has({_AA}, map_key0({_AA}))), unchanged({_AA}))",
@@ -131,3 +132,11 @@ contract(f"{CERT}.as_hashedid8", shapes={"self": cert(groups=[None], app_lens=(1
          ensures={"digest_is_over_the_encoding_of_this_very_certificate": "len(ghost('cert_encoded')) == 1 and ghost('cert_encoded')[0][0] is self.certificate and len(ghost('hashed')) == 1 and ghost('hashed')[0][0] == ghost('cert_encoded')[0][1]",
                   "and_is_its_last_eight_bytes": "result == ghost('hashed')[0][1][-8:]"},
          **{**S, "props": ["C09", "C03"]})
+
+# ------------------------------------------------------------------------------------------- issuing: chain length
+contract(f"{CERT}.set_chain_length_issue_permissions",
+         shapes={"self": cert(groups=[None, [1], ["all"], [2, 1]], app_lens=(1,)), "issuer": T.rec(OWN, certificate=cert_dict(groups=[["all"], [1], [2, 1], [1, "all"]], app_lens=(1,)), issuer=T.none, key_id=T.int(0))},
+         returns=cert(groups=[None], app_lens=(1,)),
+         ensures={"every_issuing_group_of_the_new_certificate_has_chain_length_left_and_one_less_than_an_issuer_group": "all(g['minChainLength'] >= 1 and any(g['minChainLength'] == ig['minChainLength'] - 1 for ig in issue_groups(issuer.certificate)) for g in issue_groups(result.certificate))",
+                  "the_issuer_attribute_is_set": "result.issuer is not None"},
+         **S)
